@@ -183,12 +183,22 @@ def cases(tier, inst):
                 for conn in ("and", "or"):
                     yield ("subcond", c, kind, ("S", conn, d))
                     yield ("subcond", c, kind, (d, conn, "S"))
+    # --- a sub-query whose only condition is a USER PREDICATE (function / class, plain / negated), one object used in a
+    #     comparison and as a predicate argument; the same query is evaluated three times
+    for c in PRED_CONDS:
+        for second in range(len(PRED_SECOND)):
+            for perm in (0, 1, 2):          # the domain as given, reversed, rotated: what the LAST object does matters
+                yield ("predsub", c, second, perm)
     for k in (3, 1):                                # the(...) with a unique solution (p == 3) / (q == 3 -> p==2,q==3)
         for op in ("eq", "ne"):
             yield ("the_operand", k, op)
         for op in ("lt", "ge"):
             yield ("the_attr", k, op)
         yield ("the_pform", k)
+
+
+PRED_CONDS = [("pf", "p_below", (X, L(3))), ("pc", "PEq", (X, L(2))), ("not", ("pf", "p_eq", (X, L(1)))), ("pf", "val_eq", (A(X, "flag"), ("lb", "True")))]
+PRED_SECOND = [lambda s: ("pf", "val_eq", (A(s, "q"), L(2))), lambda s: ("pc", "PEq", (s, L(2))), lambda s: ("cmp", "le", A(s, "q"), L(2))]
 
 
 def sub_q(c, quant="an"):
@@ -322,6 +332,12 @@ def queries_of(case):
         n = ("Q", "an", "setof", (X, Y), (inst2(tree, cmps_n),), vxy_decl)
         f = ("Q", "an", "setof", (X, Y), (inst2(tree, cmps_f),), vxy_decl)
         return n, f, RICH
+    if fam == "predsub":
+        _, c, second, perm = case
+        s_ = ("sub1", sub_q(c))
+        n = ("Q", "an", "entity", X, (("cmp", "ge", A(s_, "p"), L(2)), PRED_SECOND[second](s_)), VX1)
+        f = ("Q", "an", "entity", X, (c, ("cmp", "ge", A(X, "p"), L(2)), PRED_SECOND[second](X)), VX1)
+        return n, f, GRID
     if fam == "subcond":
         _, c, kind, tree = case
         s = ("sub", sub_q(c))
@@ -370,7 +386,18 @@ def run_case(case, inst):
 
     def body():
         world = build_world(wspec, inst)
-        got = evaluate(n, world, inst)
+        if case[0] == "predsub":
+            from .c18 import PermInst
+            world = build_world(wspec, PermInst(inst, case[3]))
+            # ONE query object evaluated three times: all three answers (the first that differs is reported)
+            try:
+                obj, b = Q.build(n, world, inst)
+                answers = [[(o,) for o in obj.evaluate()] for _ in range(3)]
+            except Exception as e:
+                answers = [exc_obs(e)]
+            got = answers
+        else:
+            got = evaluate(n, world, inst)
         world2 = build_world(wspec, inst)
         f_ = f if f is not None else n
         flat = evaluate(f_, world2, inst) if f is not None else None
@@ -389,6 +416,9 @@ def run_case(case, inst):
         return got, flat, exp, total, restricted
 
     got, flat, exp, total, restricted = run_isolated(body)
+    if case[0] == "predsub":
+        bad = [g for g in got if diff_rows(g, exp, count=False) is not None]
+        got = bad[0] if bad else got[0]
     nset = len({tuple(Q.norm(v) for v in r) for r in exp})
     res = {"ok": True, "nontrivial": 0 < len(exp) < total, "transitions": 2, "tags": [f"family={case[0]}"],
            "outcome": f"{case[0]}:{nset}"}
